@@ -13,7 +13,7 @@ def arg(rng, edge):
     r = rng.random()
     if r < 0.45:
         return rng.randrange(0, edge + 2)
-    return rng.choice([0, 1, max(edge - 1, 0), edge, edge + 1, edge + 2, 1 << 31, (1 << 31) - 1, M32, M32 - 1, M32 - edge, M32 - edge + 1,
+    return M32 & rng.choice([0, 1, max(edge - 1, 0), edge, edge + 1, edge + 2, 1 << 31, (1 << 31) - 1, M32, M32 - 1, M32 - edge, M32 - edge + 1,
                        (M32 - edge + 2) & M32, rng.randrange(0, 1 << 32), rng.randrange(0, 64)])
 
 
@@ -31,12 +31,16 @@ def gen_ops(rng, W, H, text, nops):
     for _ in range(nops):
         r = rng.random()
         if r < 0.35:
-            ops += [0, rng.choice([0x20, 0x41, 0, 255, rng.randrange(0, 256)]), colour(rng, text), colour(rng, text), arg(rng, W), arg(rng, H)]
+            if W >= 1 and H >= 1 and rng.random() < 0.55:
+                x, y = rng.randrange(1, W + 1), rng.randrange(1, H + 1)     # a cell of the grid
+            else:
+                x, y = arg(rng, W), arg(rng, H)
+            ops += [0, rng.choice([0x20, 0x41, 0, 255, rng.randrange(0, 256)]), colour(rng, text), colour(rng, text), x, y]
         elif r < 0.7:
             ops += [1, arg(rng, W), arg(rng, H), arg(rng, W), arg(rng, H), colour(rng, text), colour(rng, text)]
         else:
             d = rng.choice([0, 1]) if rng.random() < 0.97 else rng.choice([2, 255])
-            ops += [2, d, arg(rng, H)]
+            ops += [2, d, rng.randrange(1, H + 1) if H >= 1 and rng.random() < 0.5 else arg(rng, H)]
     return ops
 
 
@@ -62,6 +66,9 @@ def masks_for(rng, bpp):
         if bpp == 16:
             return [11, 5, 5, 6, 0, 5]
         return rng.choice([[16, 8, 8, 8, 0, 8], [0, 8, 8, 8, 16, 8]])
+    if bpp == 32 and r < 0.42:
+        # 32-bit formats that keep a component in the 4th byte (known finding: the driver drops it)
+        return rng.choice([[24, 8, 16, 8, 8, 8], [8, 8, 16, 8, 24, 8], [0, 8, 8, 8, 16 + rng.randrange(1, 9), 8]])
     if r < 0.9:
         # random layout inside the pixel: sizes 0..8, position + size <= lim
         out = []
@@ -124,17 +131,27 @@ def gen_vesa(rng):
 
 class C19(flow.Spec):
     prop = 'C19'
-    props_files = []
+    props_files = ['theories/Props/C19.v', 'theories/Props/C19_examples.v']
     model_targets = ['theories/Console/Run.vo']
     pkg = 'device/video/console'
     harness = [os.path.join(H, 'zz_verif_c19_test.go'), os.path.join(H, 'zz_verif_c19_vesa_test.go'), os.path.join(H, 'zz_verif_consts_test.go')]
     test = 'TestVerifC19$'
-    rule = ''
-    assumptions = []
-    partial = []
+    rule = ('one console per case + 1..4 operations (Write / Fill / Scroll); text mode: 1x1, 1xN, Nx1, 2x2, 80x25, random <= 12x10; '
+            'framebuffer: depth 8/15/16/24/32 (few invalid), colour-mask layouts (standard, random inside the pixel, few outside), '
+            'synthetic fonts 8..16 wide (few outside) and the three shipped fonts, grids 1x1..4x4 with right/bottom margins, logo rows 0..11 / 64 / 96 / 128, '
+            'pitch = row bytes or row bytes + 1..9 padding; arguments from {0,1,edge-1,edge,edge+1,edge+2,2^31-1,2^31,2^32-edge..,2^32-2,2^32-1,small,random 32-bit}; '
+            'colours incl. 15/16/255; buffer between guard regions, content (incl. padding) pseudo-random; observable = status + whole buffer after every op; '
+            'non-trivial = at least one op observed; distinct = distinct case vectors')
+    assumptions = ['geometry: grid w,h >= 1; pitch >= w*bytespp; h*pitch < 2^32; font 8..16 wide, BytesPerRow = ceil(w/8), 256 glyphs; offsetY <= h; depth in 8/15/16/24/32; palette of 256 RGBA entries (as loadDefaultPalette builds it)',
+                   'colour-mask layouts with mask size <= 8 and position+size within the bytes the driver writes per pixel (2 for 15/16 bpp, 3 for 24/32 bpp) are inside the monitor\'s quantifier; other layouts, fonts outside 8..16, grids without a cell, pitch < row bytes: agreement of model and code only',
+                   'SetLogo is exercised for its effect on the geometry (offsetY) only; its drawing, setPaletteColor/replace16/24 and font/logo selection are not modelled',
+                   'Scroll: the content of the vacated lines, of the margin right of / below the grid and the 4th byte of 32-bit pixels is not constrained by the monitor (the theorems state exactly what the model does there)']
+    partial = ['C19_vesa_pixel_format_partial: the bytes written per 24/32-bit pixel hold the whole packed colour for mask layouts inside the low 24 bits; '
+               'C19_full_vesa_pixel_format (every layout that fits a 32-bit pixel) is refuted by C19_vesa_pixel_format_refuted = known finding vesa:32bpp-high-byte-component-dropped; '
+               'everything else (write_cell, fill_clip, scroll_lines, no_escape, grid refinement; both consoles) is proved in full']
 
     def gen_cases(self, rng, tier):
-        n = {'quick': 700, 'thorough': 20000, 'search': 2500}[tier]
+        n = {'quick': 1500, 'thorough': 30000, 'search': 3000}[tier]
         out = []
         for _ in range(n):
             if rng.random() < 0.4:
